@@ -18,7 +18,7 @@ const TAME: &[&str] = &["", "a", "gold", "active", "x y", "Gold", "über", "abc 
 /// strings with GRL metacharacters (string literals must be opaque to the parser)
 const META: &[&str] = &["a;b", "x && y", "p || q", "}", "{", "a } b {", "now then go", "// not a comment", "(", ")", "f(x) > 1", "a = b", "a, b",
                         "rule X {", "when", "salience 9", "!", "a == b", "1 + 2", "100%", "it's", "no-loop"];
-const DESCR: &[&str] = &["Age verification rule", "gives a discount", "salience 5 is not meant here", "see no-loop", "uses agenda-group and lock-on-active"];
+const DESCR: &[&str] = &["desc {x", "a } b", "Age verification rule", "gives a discount", "salience 5 is not meant here", "see no-loop", "uses agenda-group and lock-on-active"];
 const COMMENTS: &[&str] = &["// check", "// TODO: tune threshold", "//", "// a && b || c", "// then", "// \"quoted\"", "// x; y = 1", "// when ("];
 /// comments that the regular-expression front end is known to trip over (known findings): a closing brace, a rule header
 const BAD_COMMENTS: &[&str] = &["// }", "// rule \"Ghost\" { when A.b == 1 then A.c = 2; }"];
@@ -81,7 +81,7 @@ fn gen_action(rng: &mut Rng, meta: bool) -> Sx {
         7 => Sx::l(vec![Sx::n(2), Sx::s(&{ let s = mk_str(rng, meta); if s.is_empty() { "m".into() } else { s } })]),
         8 => Sx::l(vec![Sx::n(3), Sx::s(*rng.pick(&["User", "Order", "Session"]))]),
         9 => Sx::l(vec![Sx::n(4), Sx::s(*rng.pick(&["validation", "g1", "pricing"]))]),
-        10 => Sx::l(vec![Sx::n(5), Sx::i(*rng.pick(&[0i64, 500, 60000])), Sx::s(*rng.pick(&["R1", "follow up"]))]),
+        10 => Sx::l(vec![Sx::n(5), Sx::i(*rng.pick(&[0i64, 500, 60000])), Sx::s(*rng.pick(&["R1", "follow up", "a,b", "x (y), z"]))]),
         11 => Sx::l(vec![Sx::n(6), Sx::s(*rng.pick(&["wf1", "order flow"]))]),
         12 | 13 => Sx::l(vec![Sx::n(8), Sx::s(*rng.pick(&["Notify", "sendEmail", "Audit2"])), Sx::l((0..rng.below(5)).map(|_| gen_arg(rng, meta, quotey)).collect())]),
         _ => Sx::l(vec![Sx::n(9), Sx::s(*rng.pick(&["Car", "User"])), Sx::s(*rng.pick(&["setSpeed", "reset"])), Sx::l((0..rng.below(4)).map(|_| gen_arg(rng, meta, quotey)).collect())]),
